@@ -3,6 +3,14 @@
 import json, subprocess
 props=[json.loads(l) for l in open('/verif/properties.jsonl')]
 checks=json.load(open('/verif/checks.json'))
+# records of checks built by sub-agents live next to their code; they are claimed only when listed in checks.json "claim"
+import os
+have={c["property_id"] for c in checks["checks"]}
+for pid in checks.get("claim",[]):
+    f=f'/verif/checks/c{pid[1:]}/check.json'
+    if pid not in have and os.path.exists(f):
+        checks["checks"].append(json.load(open(f)))
+checks["checks"].sort(key=lambda c:c["property_id"])
 hooks_commits=subprocess.run("git -C /repo log --format=%H --grep='^verif:'",shell=True,capture_output=True,text=True).stdout.split()
 m={"version":1,
  "setup_cmd":"cd /verif && GOFLAGS=-mod=mod GOPROXY=off go build -tags verif -o .build/ ./cmd/...",
